@@ -213,7 +213,7 @@ func runC07(c *explore.Ctx) {
 	c.Rule = "E1: BFS to closure over AddOrReplace/Remove/ClearAll on the real retained trie store, every new state: GetRetainedMessage for every probe topic, GetMatchedMessages for every filter of the C02 universe, Iterate, copy-independence of results, vs map + reference matcher."
 	c.Trusted = []string{"refmqtt.Match", "statekey.Dump", "vsched default schedule for the wire-level part"}
 	c.Rule += " E2 (wire): every history of <=2 (thorough 3) retained publishes/clears over {a, a/b, $SYS/x} x every SUBSCRIBE shape (6 filters incl. shared x QoS x Retain Handling x RAP x v5/v3.1.1 x subscribe once/twice) on a fresh in-process broker: retained store content, exact replay set with QoS min and RETAIN=1, Retain Handling / re-subscription / shared rules, RETAIN of a live publish."
-	c.Rule += " E2b: every SUBSCRIBE packet with 2 (thorough 3) distinct filters from {a, a/#, +, $share/g/a, $share/g/#} x Retain Handling per filter, in every order, sent once and twice: the replay is the union of what each non-shared filter is due."
+	c.Rule += " E2b: every SUBSCRIBE packet with 2 (thorough 3) distinct filters from {a, a/#, +, $share/g/a, $share/g/#} x Retain Handling per filter, in every order, sent once and twice: the replay is the union of what each non-shared filter is due. E2c: a QoS 2 retained PUBLISH with its PUBREL outstanding is retransmitted (DUP) once or twice after a clear / a newer retained publish / nothing on the same topic: store and replay are as if it had not been retransmitted."
 	c07Store(c)
 	c07WireMultiAll(c)
 	c07WireAll(c)
@@ -491,7 +491,79 @@ func c07WireMultiAll(c *explore.Ctx) {
 	})
 }
 
+// c07Retransmit: a QoS 2 retained PUBLISH whose PUBREL is still outstanding is
+// retransmitted (DUP, same identifier) after another retained publish / clear on the same
+// topic: the retransmission is not a new message and must not touch the retained store.
+func c07Retransmit(c *explore.Ctx, version byte, second string, dupTimes int) {
+	cas := func() any {
+		return map[string]any{"part": "qos2-retransmission", "version": version, "second_retained_publish": second, "retransmissions": dupTimes}
+	}
+	c.Count("executions", 1)
+	execBody(c, "C07", cas, func() {
+		w := harness.NewWorld(harness.DefaultConfig(), server.Hooks{})
+		if w.InitErr != nil {
+			c.Fatal("init: %v", w.InitErr)
+			return
+		}
+		p := w.Dial("P")
+		p.Connect(harness.ConnectOpts{ClientID: "p", Clean: true, Version: version})
+		first := &refmqtt.Packet{Type: refmqtt.PUBLISH, Topic: "a", Retain: true, QoS: 2, PacketID: 7, Payload: []byte("old")}
+		p.Send(first)
+		vsched.Settle()
+		want := ""
+		switch second {
+		case "clear":
+			p.Send(&refmqtt.Packet{Type: refmqtt.PUBLISH, Topic: "a", Retain: true, Payload: nil})
+		case "newer":
+			p.Send(&refmqtt.Packet{Type: refmqtt.PUBLISH, Topic: "a", Retain: true, QoS: 1, PacketID: 8, Payload: []byte("new")})
+			want = "a=new"
+		case "none":
+			want = "a=old"
+		}
+		vsched.Settle()
+		for i := 0; i < dupTimes; i++ {
+			re := *first
+			re.Dup = true
+			p.Send(&re)
+			vsched.Settle()
+		}
+		p.Send(&refmqtt.Packet{Type: refmqtt.PUBREL, PacketID: 7})
+		vsched.Settle()
+		var have []string
+		w.Srv.RetainedService().Iterate(func(m *gmqtt.Message) bool {
+			have = append(have, fmt.Sprintf("%s=%s", m.Topic, m.Payload))
+			return true
+		})
+		if strings.Join(have, ";") != want {
+			c.Violate("retained-store", "changed-by-a-retransmitted-qos2-publish", cas(), want, strings.Join(have, ";"))
+			return
+		}
+		s := w.Dial("S")
+		s.Connect(harness.ConnectOpts{ClientID: "s", Clean: true, Version: refmqtt.V5})
+		_, rest := s.Subscribe(0, refmqtt.Sub{Filter: "a", QoS: 0})
+		var got []string
+		for _, r := range rest {
+			if r != nil && r.Type == refmqtt.PUBLISH {
+				got = append(got, r.Topic+"="+string(r.Payload))
+			}
+		}
+		if strings.Join(got, ";") != want {
+			c.Violate("replay-on-subscribe", "replay-after-a-retransmitted-qos2-publish", cas(), want, strings.Join(got, ";"))
+		}
+		swallowedPanic(c, w, cas)
+	})
+}
+
 func c07WireAll(c *explore.Ctx) {
+	if !c.IsWorker() {
+		for _, v := range []byte{refmqtt.V5, refmqtt.V311} {
+			for _, second := range []string{"clear", "newer", "none"} {
+				for _, n := range []int{1, 2} {
+					c07Retransmit(c, v, second, n)
+				}
+			}
+		}
+	}
 	topics := []string{"a", "a/b", "$SYS/x"}
 	var hists [][]c07Hist
 	var events []c07Hist
